@@ -18,11 +18,13 @@ InitSt == [sess |-> <<>>, ninst |-> 0, tables |-> {}]
 Obs(res, n) == [res |-> res, nsess |-> n]
 
 Scale0Kinds == {"num38", "number_col"}
+\* sch: whether the login names a schema (default TRUE); a session without one has a current database only
+HasSch(x) == IF "sch" \in DOMAIN x THEN x.sch ELSE TRUE
 Steps(st, op, D) ==
   LET n == Len(st.sess) IN
   CASE op.k = "login" ->
          LET inst == IF op.mode = "shared" THEN 0 ELSE st.ninst + 1
-             s2 == [st EXCEPT !.sess = Append(@, [inst |-> inst, db |-> op.db, var |-> FALSE]), !.ninst = IF op.mode = "shared" THEN @ ELSE @ + 1]
+             s2 == [st EXCEPT !.sess = Append(@, [inst |-> inst, db |-> op.db, var |-> FALSE, sch |-> HasSch(op)]), !.ninst = IF op.mode = "shared" THEN @ ELSE @ + 1]
          IN {R(s2, Obs("ok", n + 1))}
     [] op.k = "create" ->    \* CREATE TABLE <name> (unqualified) in the session's database
          LET s == st.sess[op.t]  key == <<s.inst, s.db, op.name>> IN
@@ -42,9 +44,11 @@ Steps(st, op, D) ==
 
 AllOps(st) ==
   LET S == 1..Len(st.sess) IN
-  (IF Len(st.sess) < MaxSess THEN [k : {"login"}, mode : {"shared", "isolated"}, db : Db] ELSE {})
-  \cup [k : {"create", "see"}, t : S, name : Names] \cup [k : {"setvar", "getvar"}, t : S]
-  \cup [k : {"stmt"}, t : S, kind : KindsUsed] \cup [k : {"badtoken"}, w : {"missing", "unknown"}] \cup [k : {"reshape"}, t : S]
+  LET WithSch == {t \in S : HasSch(st.sess[t])} IN
+  (IF Len(st.sess) < MaxSess THEN [k : {"login"}, mode : {"shared", "isolated"}, db : Db, sch : BOOLEAN] ELSE {})
+  \* unqualified DDL / queries by name need a current schema: offered on sessions that have one
+  \cup [k : {"create", "see"}, t : WithSch, name : Names] \cup [k : {"setvar", "getvar"}, t : S]
+  \cup [k : {"stmt"}, t : S, kind : KindsUsed] \cup [k : {"badtoken"}, w : {"missing", "unknown"}] \cup [k : {"reshape"}, t : WithSch]
 
 Ops(st) ==
   LET S == 1..Len(st.sess) IN
